@@ -739,6 +739,10 @@ pub fn explore_history(spec: &HistSpec, vios: &mut Vec<Violation>, stats: &mut S
     let faults_possible = spec.max_faults > 0 && spec.fault_policy != FaultPolicy::None;
     stats.histories += 1;
     sched::set_lock_window(spec.lock_window);
+    // MiB-scale payloads: no thread is ever blocked in the kernel in these shapes
+    // (no lock-window, no join gate in the middle), so a long-running step is just slow
+    let big = spec.hist.iter().any(|o| matches!(o, SOp::W(Op::Append(es)) if es.iter().any(|e| e.1.len() > (4 << 20))));
+    sched::set_patient(big);
     let mut first = true;
     loop {
         dfs.begin_execution();
@@ -830,6 +834,7 @@ pub fn explore_history(spec: &HistSpec, vios: &mut Vec<Violation>, stats: &mut S
     stats.max_schedule_len = stats.max_schedule_len.max(dfs.stats.max_steps);
     stats.distinct_states += ctx.seen_states.len() as u64;
     stats.distinct_images += ctx.images.len() as u64;
+    sched::set_patient(false);
     Ok(())
 }
 
@@ -1632,6 +1637,7 @@ pub enum Sym {
     Ahuge,
     Agiant,
     Amega,
+    A17m,
     T,
     Pfirst,
     Plast,
@@ -1663,6 +1669,7 @@ pub fn instantiate(sym: Sym, m: &RefLog, outstanding_flushes: usize, waited: usi
         Sym::Ahuge => w(Op::Append(vec![((term, next), payload((term, next), 3))])),
         Sym::Agiant => w(Op::Append(vec![((term, next), payload((term, next), 4))])),
         Sym::Amega => w(Op::Append(vec![((term, next), payload((term, next), 5))])),
+        Sym::A17m => w(Op::Append(vec![((term, next), payload((term, next), 7))])),
         Sym::T => {
             let l = last?;
             if m.entries.contains_key(&l.1) {
